@@ -9,7 +9,7 @@ from .. import spelling as S
 
 ID = 'C15'
 LEVEL = 'exploration'
-RULE = ('all formulas with <=2 operators (+ arithmetic/predicate nestings) x all spelling variants: operator aliases (two alias assignments per formula so '
+RULE = ('all formulas with <=2 operators (+ arithmetic/predicate nestings, + comparisons whose operands are comparisons, written with and without the parentheses the grammar makes redundant) x all spelling variants: operator aliases (two alias assignments per formula so '
         'that every alias of every operator occurs), interval separators , and :, 0-2 redundant parenthesis levels around every operand, with/without '
         'trailing ; and assertion head, white space / line ends / comments before, inside and after the text (with and without the trailing ;), the MINIMALLY parenthesised spelling derived from the alternative order of StlParser.g4 (read at run time), and the '
         'LTL front end for untimed formulas; every variant must parse and return, on all traces up to length 3, the values of the fully parenthesised '
@@ -39,6 +39,18 @@ def formula_set(tier):
     fs += F.chain_formulas(4) + F.chain_formulas(5) + ([] if quick else F.chain_formulas(6))
     X3 = ('pred', '>', ('-', ('-', ('-', X, Y), F.C1), F.C2), F.C0)
     fs += [X3, ('pred', '>', ('/', ('/', ('/', X, F.C2), F.C2), F.C2), Y), ('pred', '<=', ('+', ('+', ('+', X, Y), F.C1), X), F.C2)]
+    # a comparison whose operand is itself a comparison (the grammar makes `a <= b <= c` the left-nested `(a <= b) <= c`)
+    cmps = ('<=', '>=', '<', '>', '==', '!==')
+    nested = []
+    for k, c1 in enumerate(cmps):
+        c2 = cmps[(k + 1) % len(cmps)]
+        for a, b, c in ((F.C0, X, Y), (X, Y, F.C1), (Y, F.C1, X)):
+            L = ('pred', c2, ('pred', c1, a, b), c)
+            R = ('pred', c1, a, ('pred', c2, b, c))
+            nested += [L, R, ('pred', c1, ('pred', c1, a, b), c)]
+        nested += [('pred', c1, ('pred', c2, ('pred', c1, F.C0, X), Y), F.C1), ('and', ('pred', c1, ('pred', c2, F.C0, X), Y), F.PY),
+                   ('always', None, ('pred', c2, ('pred', c1, X, Y), F.C0)), ('pred', c1, ('-', ('pred', c2, X, F.C0), Y), F.C0)]
+    fs += nested if not quick else nested[::2]
     out, seen = [], set()
     for f in fs:
         if f not in seen:
